@@ -19,12 +19,21 @@ VIT = CheckFn("viterbi", "Model.Viterbi", "vit_check",
 # per-component loop with the pointer merge, reconstruct; compared with the implementation's derivation
 ALG = CheckFn("viterbi_alg", "Model.ViterbiAlg", "vit_alg_check",
               Tup(GrammarT, List(Tup(Nat, List(TropV))), List(Nat), Tup(Nat, QQ), Tup(Nat, DTreeRec)), imports=["Model.SumProduct"])
-CHECKFNS = [VIT, ALG]
+# histories of calls on ONE FGG object (Model/ViterbiHist.v): initial grammar and weights, K, and per step
+# (in-place weight updates (label, flat index, value), rules added, start assignment, observation); the model
+# computes the state each call is judged against itself
+ObsT = Tup(Nat, DTreeRec, TropV, TropB)
+HIST = CheckFn("viterbi_hist", "Model.ViterbiHist", "vit_hist_check",
+               Tup(GrammarT, List(Tup(Nat, List(TropV))), Nat, List(Tup(List(Tup(Nat, Nat, TropV)), List(RuleT), List(Nat), ObsT))),
+               imports=["Model.SumProduct"])
+CHECKFNS = [VIT, ALG, HIST]
 KMAX = 1000                      # viterbi's defaults, passed to the model as well
 TOL = Fraction(1, 10**6)
 ASSUMPTIONS = [
     "integer log-weights, so float arithmetic is exact and ties are frequent; any optimal derivation is accepted",
     "the optimum is the exact Viterbi-semiring least fixed point computed by the Coq model (Kleene iteration to a fixed point); start assignments whose optimum is -inf or +inf are outside the property and skipped",
+    "the property is about the FGG as it is at the time of the call: in a history of calls on one object (in-place weight updates, a new tensor assigned, rules added in between) every call is judged against the state the Coq model (Model/ViterbiHist.v hist_cases) computes from the initial state and the updates; the harness checks by read-back that each update reached the factor",
+    "how the FGG object was built (one label object per name, a new equal label object per use, the convenience API, FGG.copy()) must not matter: all four constructions are generated",
 ]
 SRV = SR("viterbi", "float64")
 K_ENCL = 40
@@ -67,9 +76,208 @@ def derive_weight(deriv, b):
         if n not in asst: raise KeyError("derive(): node without a value")
     return tot
 
-def run_impl(spec, xi, ids="explicit", rng=None):
+VARIANTS = ["shared", "fresh", "api", "copy"]
+
+def _rule_wire(r):
+    return (r["lhs"], list(r["nodes"]), [(el, list(att)) for el, att in r["edges"]], list(r["ext"]))
+
+class Obj:
+    """one FGG object under construction / under a history, with the maps back to the spec"""
+    def __init__(self, spec, variant, rng, ids="mixed"):
+        import fggs
+        self.spec, self.variant, self.rng, self.ids = spec, variant, rng, ids
+        self.p_fresh = 1.0 if variant != "fresh" else rng.choice([1.0, 1.0, 0.5])
+        self.cnl = [fggs.NodeLabel(gen.nl_name(i)) for i in range(len(spec["nlabels"]))]
+        self.cel = [fggs.EdgeLabel(gen.el_name(spec, i), [self.cnl[nl] for nl in e["type"]], is_terminal=e["term"], is_nonterminal=not e["term"])
+                    for i, e in enumerate(spec["elabels"])]
+        self.rules = []; self.tensors = {}; self.factors = {}
+    # label objects: the canonical one, or a NEW object that is equal to it
+    def NL(self, i, fresh):
+        import fggs
+        return fggs.NodeLabel(gen.nl_name(i)) if fresh and self.rng.random() < self.p_fresh else self.cnl[i]
+    def EL(self, i, fresh):
+        import fggs
+        if fresh and self.rng.random() < self.p_fresh:
+            e = self.spec["elabels"][i]
+            return fggs.EdgeLabel(gen.el_name(self.spec, i), [self.NL(nl, fresh) for nl in e["type"]], is_terminal=e["term"], is_nonterminal=not e["term"])
+        return self.cel[i]
+    def _id(self, s):
+        return s if (self.ids == "explicit" or (self.ids == "mixed" and self.rng.random() < 0.5)) else None
+    def add_rule(self, ri):
+        """add rule ri of the spec to the object (rules must be added in spec order: the model indexes them so)"""
+        import fggs
+        r = self.spec["rules"][ri]; spec = self.spec
+        assert ri == len(self.rules)
+        g = fggs.Graph()
+        if self.variant == "api":
+            # the convenience API creates a new NodeLabel per node and a new EdgeLabel per edge and per left-hand side
+            nodes = [g.new_node(gen.nl_name(nl), id=self._id("n%d" % k)) for k, nl in enumerate(r["nodes"])]
+            edges = [g.new_edge(gen.el_name(spec, el), [nodes[i] for i in att], is_terminal=spec["elabels"][el]["term"],
+                                is_nonterminal=not spec["elabels"][el]["term"], id=self._id("e%d" % k)) for k, (el, att) in enumerate(r["edges"])]
+            g.ext = [nodes[i] for i in r["ext"]]
+            rule = self.fgg.new_rule(gen.el_name(spec, r["lhs"]), g)
+        else:
+            fresh = self.variant == "fresh"
+            nodes = [fggs.Node(self.NL(nl, fresh), id=self._id("n%d" % k)) for k, nl in enumerate(r["nodes"])]
+            for nd in nodes: g.add_node(nd)
+            edges = []
+            for k, (el, att) in enumerate(r["edges"]):
+                e = fggs.Edge(self.EL(el, fresh), [nodes[i] for i in att], id=self._id("e%d" % k))
+                g.add_edge(e); edges.append(e)
+            g.ext = [nodes[i] for i in r["ext"]]
+            rule = fggs.HRGRule(self.EL(r["lhs"], fresh), g)
+            self.fgg.add_rule(rule)
+        self.rules.append((rule, nodes, edges))
+
+def build_variant(spec, variant, rng, n_rules=None, ids="mixed"):
+    """an FGG for spec whose label objects are, by variant:
+    'shared' one EdgeLabel/NodeLabel object per name (as json_to_fgg does); 'fresh' a new, equal object for (almost)
+    every use; 'api' built with new_finite_domain / new_node / new_edge / new_rule / new_finite_factor (a new label
+    object per node, edge and left-hand side); 'copy' FGG.copy() of a 'shared' object.  Only the first n_rules rules
+    are added (Obj.add_rule adds the others later)."""
+    import fggs, torch
+    o = Obj(spec, "shared" if variant == "copy" else variant, rng, ids=ids)
+    st = spec["start"]
+    if variant == "api":
+        o.fgg = fggs.FGG(gen.el_name(spec, st)) if not spec["elabels"][st]["type"] else fggs.FGG(o.EL(st, True))
+        for i, size in enumerate(spec["nlabels"]):
+            o.fgg.new_finite_domain(gen.nl_name(i), ["v%d_%d" % (i, k) for k in range(size)])
+    else:
+        o.fgg = fggs.FGG(o.EL(st, variant == "fresh"))
+        if variant != "fresh" or rng.random() < 0.5:
+            for nl in o.cnl: o.fgg.add_node_label(nl)
+            for el in o.cel: o.fgg.add_edge_label(el)
+    nr = len(spec["rules"]) if n_rules is None else n_rules
+    for ri in range(nr): o.add_rule(ri)
+    if variant != "api":
+        for i, size in enumerate(spec["nlabels"]):
+            o.fgg.add_domain(o.NL(i, variant == "fresh"), fggs.FiniteDomain(["v%d_%d" % (i, k) for k in range(size)]))
+    for el, w in sorted(spec["weights"].items()):
+        t = torch.tensor(gen.nested_map(w, SRV.wconv), dtype=SRV.torch_dtype())
+        name = gen.el_name(spec, el)
+        if variant == "api" and o.fgg.has_edge_label_name(name):
+            fac = o.fgg.new_finite_factor(name, t)
+        else:
+            doms = [o.fgg.domains[gen.nl_name(nl)] for nl in spec["elabels"][el]["type"]]
+            fac = fggs.FiniteFactor(doms, t)
+            o.fgg.add_factor(o.EL(el, variant in ("fresh", "api")), fac)
+        o.tensors[el] = t; o.factors[el] = fac
+    if variant == "copy":
+        f2 = o.fgg.copy()
+        old = o.fgg.all_rules(); new = f2.all_rules()
+        assert len(old) == len(new)
+        m = {id(a): b_ for a, b_ in zip(old, new)}
+        o.rules = [(m[id(r)], ns, es) for r, ns, es in o.rules]
+        o.fgg = f2
+        o.factors = {el: f2.factors[gen.el_name(spec, el)] for el in o.factors}
+        o.tensors = {el: o.factors[el].weights.physical for el in o.factors}
+    return o
+
+def snapshot(o):
+    """deep snapshot of the object's observable state: rule objects, their nodes/edges, domains' sizes, factor weights"""
+    f = o.fgg
+    return ([(id(r), r.lhs.name, [(n.id, n.label.name) for n in r.rhs.nodes()], [(e.id, e.label.name, [n.id for n in e.nodes]) for e in r.rhs.edges()],
+              [n.id for n in r.rhs.ext]) for r in f.all_rules()],
+            sorted((k, d.size()) for k, d in f.domains.items()),
+            sorted((k, tuple(fac.weights.shape), dense_list(fac.weights)) for k, fac in f.factors.items()),
+            f.start.name)
+
+def observe(o, xi):
+    """sum_product + viterbi + derive() on the object as it is now -> (obs for vit_check, note, used factor entries,
+    whether the calls changed the object)"""
     import fggs
-    b = gen.build_fgg(spec, SRV.wconv, ids=ids, rng=rng, dtype=SRV.torch_dtype())
+    before = snapshot(o)
+    used = []
+    with warnings.catch_warnings():
+        warnings.simplefilter("ignore")
+        sp = fggs.sum_product(o.fgg, semiring=SRV.semiring(), method="fixed-point")
+        spv = float(sp.to_dense()[tuple(xi)]) if xi else float(sp.to_dense())
+        note = None; dw = None
+        try:
+            d = fggs.viterbi(o.fgg, tuple(xi), semiring=SRV.semiring())
+            tree = to_tree(d, o, o.spec)
+        except RecursionError:
+            tree = None; note = "RecursionError"
+        except Exception as e:
+            tree = None; note = type(e).__name__ + ": " + str(e)[:80]
+        if tree is not None:
+            try:
+                dw = derive_weight(d, o)
+                g, asst = d.derive()
+                for e in g.edges():
+                    used.append((int(e.label.name[1:]), tuple(int(asst[n]) for n in e.nodes)))
+            except Exception as e:
+                dw = None; note = type(e).__name__ + ": " + str(e)[:80]
+    if tree is None:
+        obs = (1, DUMMY, (0, Fraction(0)), SRV.obs(spv))
+    else:
+        obs = (0, tree, tv(dw) if dw is not None else (2, Fraction(0)), SRV.obs(spv))
+    return obs, note, used, snapshot(o) != before
+
+GRID = [Fraction(0), Fraction(1, 4), Fraction(1, 2), Fraction(1)]
+HOWS = ["tensor", "physical", "assign"]
+
+def apply_update(o, cur, el, k, val, how):
+    """change entry k (row-major) of terminal el's weights to spec value val on the live object"""
+    x = SRV.wconv(val)
+    fac = o.factors[el]
+    if how == "tensor":          # the tensor object that was handed to FiniteFactor, modified in place
+        o.tensors[el].reshape(-1)[k] = x
+    elif how == "physical":      # through the factor: the storage of its PatternedTensor
+        fac.weights.physical.reshape(-1)[k] = x
+    else:                        # a new tensor assigned to the factor
+        t = fac.weights.to_dense().clone(); t.reshape(-1)[k] = x
+        fac.weights = t; o.tensors[el] = t
+    cur[el][k] = val
+    got = dense_list(fac.weights); want = [SRV.wconv(v) for v in cur[el]]
+    if got != want: raise RuntimeError("harness: update %s of t%d[%d] did not reach the factor (%r != %r)" % (how, el, k, got, want))
+
+def run_history(spec, plan, rng):
+    """plan: dict(variant, build_seed, ids, cut, n_steps, steps) -- steps None: generate (and record in plan) n_steps
+    steps with rng; otherwise replay the recorded ones.  Returns (wire value for HIST, per-step records)."""
+    brng = random.Random(plan["build_seed"])
+    o = build_variant(spec, plan["variant"], brng, n_rules=plan["cut"], ids=plan["ids"])
+    cur = {el: list(gen.flat(w)) for el, w in spec["weights"].items()}
+    shapes = {el: [spec["nlabels"][nl] for nl in spec["elabels"][el]["type"]] for el in cur}
+    st = spec["elabels"][spec["start"]]["type"]
+    xis = list(itertools.product(*[range(spec["nlabels"][nl]) for nl in st]))
+    generate = plan.get("steps") is None
+    recorded = [] if generate else plan["steps"]
+    wire_steps = []; recs = []; used = []; nadded = plan["cut"]
+    for j in range(plan["n_steps"] if generate else len(recorded)):
+        if generate:
+            ups = []; add = []
+            if j > 0:
+                if nadded < len(spec["rules"]) and (rng.random() < 0.6 or j == plan["n_steps"] - 1):
+                    add = list(range(nadded, len(spec["rules"]) if rng.random() < 0.7 else nadded + 1))
+                for _ in range(rng.choice([0, 1, 1, 1, 2]) if cur else 0):
+                    cand = [(el, sum(i * math.prod(shapes[el][a + 1:]) for a, i in enumerate(idx))) for el, idx in used if el in cur]
+                    cand = [(el, k) for el, k in cand if cur[el][k] != GRID[0]]
+                    if cand and rng.random() < 0.6:
+                        # an entry the previous answer relied on gets worse: the previous answer is probably no longer optimal
+                        el, k = rng.choice(cand); val = rng.choice([v for v in GRID if v < cur[el][k]])
+                    else:
+                        el = rng.choice(sorted(cur))
+                        if not cur[el]: continue
+                        k = rng.randrange(len(cur[el])); val = rng.choice([v for v in GRID if v != cur[el][k]])
+                    ups.append((el, k, val, rng.choice(HOWS)))   # (the live state is updated below, when the step is executed)
+            step = dict(updates=[[el, k, str(val), how] for el, k, val, how in ups], add_rules=add, start_asst=list(rng.choice(xis)))
+            recorded.append(step)
+        step = recorded[j]
+        for ri in step["add_rules"]: o.add_rule(ri); nadded += 1
+        for el, k, val, how in step["updates"]: apply_update(o, cur, int(el), int(k), Fraction(val), how)
+        xi = list(step["start_asst"])
+        obs, note, used, changed = observe(o, xi)
+        wire_steps.append(([(int(el), int(k), SRV.wwire(Fraction(val))) for el, k, val, how in step["updates"]],
+                           [_rule_wire(spec["rules"][ri]) for ri in step["add_rules"]], xi, obs))
+        recs.append(dict(obs=obs, note=note, changed=changed))
+    if generate: plan["steps"] = recorded
+    part = dict(spec, rules=spec["rules"][:plan["cut"]])
+    return (grammar_wire(part), weights_wire(spec, SRV), K_ENCL, wire_steps), recs
+
+def run_impl(spec, xi, ids="explicit", rng=None, variant="shared"):
+    import fggs
+    b = gen.build_fgg(spec, SRV.wconv, ids=ids, rng=rng, dtype=SRV.torch_dtype()) if variant == "shared" else build_variant(spec, variant, rng, ids=ids)
     with warnings.catch_warnings():
         warnings.simplefilter("ignore")
         sp = fggs.sum_product(b.fgg, semiring=SRV.semiring(), method="fixed-point")
@@ -99,29 +307,67 @@ def classify(spec, tree_or_exc):
     """known defect classes of the unmodified code (kept for the record; all repaired in /repo)"""
     return None
 
+WHAT = {1: "viterbi raised instead of returning a derivation although the optimum is finite",
+        5: "returned derivation is not well formed (rule of the wrong nonterminal, node without a value in its domain, external nodes disagreeing with the parent, or missing/extra child)",
+        6: "weight of the returned derivation is not the maximum over all derivations",
+        7: "derive()'s factor graph and assignment have a different total weight than the derivation (or derive() failed)",
+        8: "sum_product(semiring=Viterbi) at the start assignment differs from the maximum over all derivations"}
+
+def gen_spec(rng, i):
+    rec = (i % 3 == 0)
+    if i % 12 == 9:
+        # a long chain (3-4 nonterminals x 3-4 states: the optimum needs up to ~16 passes of the fixed-point loop, so a
+        # wrong iteration cap or a lost pointer shows)
+        spec = gen.chain_spec(rng, n_nt=rng.randint(3, 4), dom=rng.randint(3, 4))
+    elif i % 6 == 3:
+        # chains of 1..3 nonterminals; n_nt = 1 is a SINGLETON self-recursive component (X(u) -> step(u,v) X(v) | stop(u))
+        # whose optimum needs the recursive rule several times
+        n_nt = rng.choice([1, 1, 2, 3])
+        spec = gen.chain_spec(rng, n_nt=n_nt, dom=rng.randint(2, 4) if n_nt == 1 else None)
+        if n_nt == 1: spec["features"] = ["chain", "self_loop_chain"]
+    else:
+        spec = gen.random_spec(rng, recursive=rec, allow_inf=False, max_nt=3, max_dom=2 if rec else 3, max_nodes=3 if rec else 4,
+                               max_edges=3 if rec else 4, linear=rng.choice([None, False]) if rec else None, dup_ext=False)
+    spec["weights"] = {el: gen.nested_map(w, lambda v: v if v <= 1 else Fraction(1, 2)) for el, w in spec["weights"].items()}
+    return spec
+
+def self_loop_singleton(spec):
+    """some nonterminal is directly self-recursive and no other nonterminal is mutually recursive with it"""
+    nts = [i for i, e in enumerate(spec["elabels"]) if not e["term"]]
+    succ = {x: {el for r in spec["rules"] if r["lhs"] == x for el, _ in r["edges"] if not spec["elabels"][el]["term"]} for x in nts}
+    def reach(x):
+        seen = set(); todo = list(succ[x])
+        while todo:
+            y = todo.pop()
+            if y not in seen: seen.add(y); todo.extend(succ[y])
+        return seen
+    return any(x in succ[x] and not any(y != x and x in reach(y) for y in reach(x)) for x in nts)
+
 def run(tier, seed):
     rng = random.Random(seed)
+    import time; T = {}; t0 = time.process_time(); w0 = time.time()
     n = int(os.environ.get("VERIF_N", 0)) or (260 if tier == "quick" else 4000)
-    violations = []; vals = []; avals = []; meta = []; feats = {}; distinct = set()
+    violations = []; vals = []; avals = []; meta = []; feats = {}; distinct = set(); vhist = {}
     import sys
     sys.setrecursionlimit(3000)
     for i in range(n):
-        rec = (i % 3 == 0)
-        # every 12th case: a long chain (3-4 nonterminals x 3-4 states: the optimum needs up to ~16 passes of the
-        # fixed-point loop, so a wrong iteration cap or a lost pointer shows)
-        spec = gen.chain_spec(rng, n_nt=rng.randint(3, 4), dom=rng.randint(3, 4)) if i % 12 == 9 else gen.chain_spec(rng) if i % 6 == 3 else gen.random_spec(rng, recursive=rec, allow_inf=False, max_nt=3, max_dom=2 if rec else 3,
-                               max_nodes=3 if rec else 4, max_edges=3 if rec else 4, linear=rng.choice([None, False]) if rec else None, dup_ext=False)
-        spec["weights"] = {el: gen.nested_map(w, lambda v: v if v <= 1 else Fraction(1, 2)) for el, w in spec["weights"].items()}
+        spec = gen_spec(rng, i)
         key = json.dumps(gen.spec_jsonable(spec), sort_keys=True); distinct.add(key)
         for f in spec["features"]: feats[f] = feats.get(f, 0) + 1
+        if self_loop_singleton(spec): feats["singleton_self_recursive_scc"] = feats.get("singleton_self_recursive_scc", 0) + 1
         st = spec["elabels"][spec["start"]]["type"]
         xis = list(itertools.product(*[range(spec["nlabels"][nl]) for nl in st]))
         rng.shuffle(xis)
+        # how the object is built: label objects shared per name / a new equal object per use / convenience API / copy()
+        variant = VARIANTS[(i // 2) % 4]; ids = ["explicit", "implicit", "mixed"][(i + i // 6) % 3]
+        vhist[variant] = vhist.get(variant, 0) + 1
         for xi in xis[:2]:
+            bseed = rng.getrandbits(30)
+            case = dict(spec=gen.spec_jsonable(spec), start_asst=list(xi), variant=variant, ids=ids, build_seed=bseed)
             try:
-                spv, tree, dw = run_impl(spec, list(xi), ids=["explicit", "implicit", "mixed"][i % 3], rng=rng)
+                spv, tree, dw = run_impl(spec, list(xi), ids=ids, rng=random.Random(bseed), variant=variant)
             except Exception as e:
-                violations.append(Violation("harness could not run viterbi/sum_product: %r" % (e,), case=dict(spec=gen.spec_jsonable(spec), start_asst=list(xi)),
+                violations.append(Violation("harness could not run viterbi/sum_product: %r" % (e,), case=case,
                                             corr="corr:viterbi", failing_input_found=True, call="fggs.viterbi"))
                 continue
             if isinstance(tree, tuple) and tree[0] == "exc":
@@ -131,58 +377,110 @@ def run(tier, seed):
                 note = dw[1] if isinstance(dw, tuple) else None
             vals.append((grammar_wire(spec), weights_wire(spec, SRV), list(xi), K_ENCL, obs))
             avals.append((grammar_wire(spec), weights_wire(spec, SRV), list(xi), (KMAX, TOL), (obs[0], obs[1])))
-            meta.append((spec, list(xi), obs, note))
+            meta.append((spec, list(xi), obs, note, case))
+    T['impl_single_calls'] = round(time.time() - w0, 1); w0 = time.time()
     codes, nk = run_model(VIT, vals, seed=seed, coq_sample=6 if tier == "quick" else 40, tag="c04")
     skipped = {30: 0, 31: 0}; judged = 0
-    WHAT = {1: "viterbi raised instead of returning a derivation although the optimum is finite",
-            5: "returned derivation is not well formed (rule of the wrong nonterminal, node without a value in its domain, external nodes disagreeing with the parent, or missing/extra child)",
-            6: "weight of the returned derivation is not the maximum over all derivations",
-            7: "derive()'s factor graph and assignment have a different total weight than the derivation (or derive() failed)",
-            8: "sum_product(semiring=Viterbi) at the start assignment differs from the maximum over all derivations"}
-    for (spec, xi, obs, note), c in zip(meta, codes):
+    for (spec, xi, obs, note, case), c in zip(meta, codes):
         if c in skipped: skipped[c] += 1; continue
         judged += 1
         if c == 0: continue
-        violations.append(Violation(WHAT.get(c, "framework inconsistency (code %d)" % c) + ((" [" + note + "]") if note else ""),
-                                    case=dict(spec=gen.spec_jsonable(spec), start_asst=xi), observed=obs,
+        violations.append(Violation(WHAT.get(c, "framework inconsistency (code %d)" % c) + ((" [" + note + "]") if note else "") + " [object built as '%s']" % case["variant"],
+                                    case=case, observed=obs,
                                     oracle={5: "wf_dtree_b", 6: "weight = optimum", 7: "derive weight", 8: "optimum"}.get(c, "optimum finite => derivation"),
                                     corr="C04 / corr:viterbi", failing_input_found=c in WHAT, call="fggs.viterbi(fgg, %r)" % (tuple(xi),),
                                     finding_key=classify(spec, obs)))
     # --- the code-shaped model (pointer tables, merge, reconstruct) against the same derivations
     # (cases whose optimum is -inf / divergent are outside the property: vit_check's 30/31 depend on the grammar only)
     keep = [i for i, c in enumerate(codes) if c not in skipped]
+    T['model_vit_check'] = round(time.time() - w0, 1); w0 = time.time()
     acodes, ank = run_model(ALG, [avals[i] for i in keep], seed=seed, coq_sample=4 if tier == "quick" else 30, tag="c04alg")
+    T['model_vit_alg_check'] = round(time.time() - w0, 1)
     AWHAT = {1: "viterbi raised although the code-shaped model finds a derivation of finite weight",
              5: "returned derivation is not well formed (judged by the model-side check)",
              10: "the implementation's derivation and the code-shaped model's derivation have different weights (one of them is not optimal; vit_check decides which)"}
     alg = dict(exact_agreement=0, agree_up_to_ties=0, skipped_value_not_finite=0, skipped_model_not_converged=0, compared=0)
-    for (spec, xi, obs, note), c in zip([meta[i] for i in keep], acodes):
+    for (spec, xi, obs, note, case), c in zip([meta[i] for i in keep], acodes):
         if c == 31: alg["skipped_value_not_finite"] += 1; continue
         if c in (33, 34): alg["skipped_model_not_converged"] += 1; continue
         alg["compared"] += 1
         if c == 0: alg["exact_agreement"] += 1; continue
         if c == 32: alg["agree_up_to_ties"] += 1; continue
         violations.append(Violation(AWHAT.get(c, "framework inconsistency in the code-shaped viterbi model (code %d)" % c) + ((" [" + note + "]") if note else ""),
-                                    case=dict(spec=gen.spec_jsonable(spec), start_asst=xi), observed=obs,
+                                    case=case, observed=obs,
                                     oracle={1: "model finds a finite derivation", 5: "wf_dtree_b", 10: "weight = model's value"}.get(c, "viterbi_model"),
                                     corr="C04 / corr:viterbi_alg (Model/ViterbiAlg.v viterbi_model)", failing_input_found=c in (1, 5),
                                     call="fggs.viterbi(fgg, %r)" % (tuple(xi),), finding_key=classify(spec, obs)))
-    cov = dict(evaluations=len(vals), viterbi_model=alg, exact_agreement=alg["exact_agreement"], kernel_reevaluated_alg=ank, distinct_nontrivial=len(distinct), judged=judged,
-               skipped_divergent=skipped[30], skipped_optimum_not_finite=skipped[31],
-               rule="random FGG specs with integer log-weights in {-inf,-2,-1,0} (two thirds non-recursive, one third recursive incl. weight-0 cycles and non-linear recursion), up to two start assignments each; forced shapes: rules whose attached nodes are all external, isolated nodes, size-1 domains, nullary factors, repeated attachments; distinct by spec, all with >= 1 rule",
+    # --- histories of calls on the same object: viterbi, in-place weight updates / a new tensor assigned / rules added,
+    # viterbi again; every call is judged by vit_check against the state the MODEL computes from the updates
+    w0 = time.time()
+    nh = int(os.environ.get("VERIF_NH", 0)) or (48 if tier == "quick" else 900)
+    hvals = []; hmeta = []
+    hist = dict(histories=0, calls=0, updates={h: 0 for h in HOWS}, rules_added_between_calls=0, staged=0, variants={}, all_calls_outside_property=0,
+                accepted=0, object_changed_by_call=0)
+    for i in range(nh):
+        spec = gen_spec(rng, [3, 0, 9, 3, 4, 3][i % 6])
+        distinct.add(json.dumps(gen.spec_jsonable(spec), sort_keys=True))
+        staged = len(spec["rules"]) >= 2 and i % 4 == 2
+        plan = dict(variant=VARIANTS[i % 4], build_seed=rng.getrandbits(30), ids=["explicit", "implicit", "mixed"][i % 3],
+                    cut=rng.randint(1, len(spec["rules"]) - 1) if staged else len(spec["rules"]), n_steps=3 if tier == "quick" else rng.randint(2, 5), steps=None)
+        case = dict(spec=gen.spec_jsonable(spec), history=plan)
+        try:
+            hv, recs = run_history(spec, plan, rng)
+        except Exception as e:
+            violations.append(Violation("harness could not run a history of viterbi calls: %r" % (e,), case=case, corr="corr:viterbi_hist",
+                                        failing_input_found=True, call="fggs.viterbi"))
+            continue
+        hist["histories"] += 1; hist["calls"] += len(recs); hist["staged"] += int(staged)
+        hist["variants"][plan["variant"]] = hist["variants"].get(plan["variant"], 0) + 1
+        for s in plan["steps"]:
+            hist["rules_added_between_calls"] += len(s["add_rules"])
+            for u in s["updates"]: hist["updates"][u[3]] += 1
+        for j, rc in enumerate(recs):
+            if rc["changed"]:
+                hist["object_changed_by_call"] += 1
+                violations.append(Violation("sum_product/viterbi changed the FGG object it was given (deep snapshot of rules, domains and factor weights before/after call %d differs)" % (j + 1),
+                                            case=case, oracle="snapshot before = snapshot after", corr="C04 / input not modified", failing_input_found=True, call="fggs.viterbi"))
+        hvals.append(hv); hmeta.append((spec, plan, case, recs))
+    T['impl_histories'] = round(time.time() - w0, 1); w0 = time.time()
+    hcodes, hnk = run_model(HIST, hvals, seed=seed, coq_sample=3 if tier == "quick" else 20, tag="c04hist")
+    T['model_vit_hist_check'] = round(time.time() - w0, 1)
+    for (spec, plan, case, recs), c in zip(hmeta, hcodes):
+        if c == 0: hist["accepted"] += 1; continue
+        if c == 31: hist["all_calls_outside_property"] += 1; continue
+        j, cc = divmod(c, 100)
+        rc = recs[j - 1] if 1 <= j <= len(recs) else dict(obs=None, note=None)
+        s = plan["steps"][j - 1] if 1 <= j <= len(recs) else {}
+        violations.append(Violation("call %d of a history on ONE FGG object (built as '%s'; before this call: updates %r, rules added %r): " % (j, plan["variant"], s.get("updates"), s.get("add_rules"))
+                                    + WHAT.get(cc, "framework inconsistency (code %d)" % c) + " -- judged against the object's state at that call" + ((" [" + rc["note"] + "]") if rc["note"] else ""),
+                                    case=case, observed=rc["obs"], oracle={5: "wf_dtree_b", 6: "weight = optimum", 7: "derive weight", 8: "optimum"}.get(cc, "optimum finite => derivation"),
+                                    corr="C04 / corr:viterbi_hist (Model/ViterbiHist.v, C04_hist_check_optimal)", failing_input_found=cc in WHAT,
+                                    call="fggs.viterbi(fgg, %r)" % (tuple(s.get("start_asst", ())),), finding_key=classify(spec, rc["obs"])))
+    cov = dict(wall_seconds_by_phase=T, evaluations=len(vals) + hist["calls"], single_calls=len(vals), viterbi_model=alg, exact_agreement=alg["exact_agreement"], kernel_reevaluated_alg=ank, distinct_nontrivial=len(distinct), judged=judged,
+               skipped_divergent=skipped[30], skipped_optimum_not_finite=skipped[31], object_construction=vhist, histories=hist, kernel_reevaluated_hist=hnk,
+               rule="random FGG specs with integer log-weights in {-inf,-2,-1,0} (two thirds non-recursive, one third recursive incl. weight-0 cycles and non-linear recursion; chains of 1-4 nonterminals, 1 = a singleton self-recursive component), up to two start assignments each; forced shapes: rules whose attached nodes are all external, isolated nodes, size-1 domains, nullary factors, repeated attachments; the FGG object is built in four ways in rotation (one label object per name / a new equal EdgeLabel+NodeLabel object per use / the convenience API new_node,new_edge,new_rule,new_finite_factor / FGG.copy()); plus histories of 3 (thorough: 2-5) calls on one object with in-place updates of the tensor given to FiniteFactor, of weights.physical, assignment of a new tensor, and rules added between calls (updates prefer entries the previous answer used), every call judged against the state at that call, with deep before/after snapshots of the object around every call; distinct by spec, all with >= 1 rule",
                feature_histogram=feats, kernel_reevaluated=nk,
-               samples=[dict(spec=gen.spec_jsonable(meta[0][0]), start_asst=meta[0][1], observed=meta[0][2])] if meta else [],
+               samples=[dict(spec=gen.spec_jsonable(meta[0][0]), start_asst=meta[0][1], observed=meta[0][2])] + ([dict(history=hmeta[0][1])] if hmeta else []) if meta else [],
                open_items=["the inside of log_viterbi_einsum_forward (physical/virtual axis translation of the arg-max pointers, torch_semiring_einsum's tie-breaking) is taken by contract in Model/ViterbiAlg.v (maximum + one maximiser, first in row-major order): the model and the implementation are compared up to ties (exact_agreement is reported); DESIGN's L4 argmax_einsum_model is not built",
                            "C04_reconstruct_terminates / C04_alg_optimal need the ghost flag 'the last two iterates of every iterated component were EXACTLY equal'; for a stop by tol > 0 between different iterates or by kmax the statement is false (C04_unconverged_weight_refuted) and nothing is claimed",
                            "the cell-wise array-of-structs representation of the three pointer tensors, [rebuild] using the first (not last) binding of a repeated external node, and kmax = 0 (model: None; code: unbound/stale variables) are modelling choices validated by the correspondence only",
                            "FGGDerivation.derive() (hyperedge replacement) is not modelled in Gallina: C04_weight_is_factor_product proves that the derivation's weight is the product of its rule instances' terminal factor entries; that derive()'s factor graph has exactly these edges and values is checked per case by re-scoring derive()'s output in the harness (verdict 7)",
-                           "positive-weight cycles (no finite attained maximum): the exact enclosure does not converge, verdict 30, case skipped (outside the property's quantifier)"])
+                           "positive-weight cycles (no finite attained maximum): the exact enclosure does not converge, verdict 30, case skipped (outside the property's quantifier)",
+                           "object identity (is vs ==) has no counterpart in the Gallina model (labels are numbers): equal-but-not-identical label objects are covered by the correspondence only (four construction variants); histories change weights and add rules, they do not remove rules, change domains or options (kmax/tol/semiring) between calls"])
     return cov, violations
 
 def replay(path):
     r = json.load(open(path)); c = r["case"]
-    spec = gen.spec_from_json(c["spec"]); xi = c["start_asst"]
-    spv, tree, dw = run_impl(spec, xi)
+    spec = gen.spec_from_json(c["spec"])
+    if "history" in c:
+        plan = dict(c["history"])
+        hv, recs = run_history(spec, plan, random.Random(0))
+        code = run_coq(HIST, [hv], tag="replayhist")[0]
+        print("history", plan, "observations", [rc["obs"] for rc in recs], "verdict code", code, "(100*call + vit_check verdict)",
+              "object changed by a call:", [rc["changed"] for rc in recs])
+        return 1 if (code not in (0, 31) or any(rc["changed"] for rc in recs)) else 0
+    xi = c["start_asst"]
+    spv, tree, dw = run_impl(spec, xi, ids=c.get("ids", "explicit"), rng=random.Random(c.get("build_seed", 0)), variant=c.get("variant", "shared"))
     if isinstance(tree, tuple) and tree[0] == "exc":
         obs = (1, DUMMY, (0, Fraction(0)), SRV.obs(spv))
     else:
@@ -194,7 +492,7 @@ def replay(path):
 
 MANIFEST = dict(
     level="proof",
-    text="Coq (Props/C04.v, all closed, no premises about the semiring): derivation trees, their weight and well-formedness are defined once (shared with C01). C04_wf_reflect: the executable well-formedness test decides the Prop (rule of the nonterminal rewritten, every node of the rule instance has a value in its domain, externals agree with the parent, exactly one child per edge) for every grammar. C04_tree_weight_below_kleene: in the Viterbi semiring every well-formed derivation's weight is below the Kleene iterate at its depth. C04_optimal: when the exact max-plus Kleene iteration reaches its fixed point, that value bounds the weight of every well-formed derivation of every nonterminal and assignment (any depth), equals the maximum over the derivations of bounded depth and is attained by one of them unless it is -inf. C04_check_sound: verdict 0 of the check means the returned derivation is well formed, has finite weight, no derivation of the start symbol at that assignment weighs more, sum_product(Viterbi) contains that value and derive()'s re-scored weight equals it. C04_weight_is_factor_product: the weight of a derivation is the product of the terminal factor entries of its rule instances (= the score of derive()'s factor graph). The (max,+) law records are proved (C04_trop_ring, C04_trop_ordered). Every derivation returned by fggs.viterbi on generated FGGs is converted to a tree and judged by the extracted check. The algorithm itself is modelled in Model/ViterbiAlg.v (arg-max per rule, F_viterbi's value / lhs_pointer / rhs_pointer cells with first-rule filling and strict-improvement overwrite, the per-component loop with the pointer merge of repair b171ddf, reconstruct with fuel): C04_ptr_inv (after any number of passes every finite cell's pointers name a rule and an in-range assignment whose edge product, with the values of the pass the pointer was recorded in, is the cell's value), C04_reconstruct_terminates (if every loop stopped with two equal iterates, reconstruct with fuel #components*(kmax+1) returns, for every finite cell, a well-formed derivation weighing the cell's value), C04_tables_lfp / C04_alg_optimal (the value tables are the least fixed point of the max-plus equations, so viterbi_model's derivation is optimal and equals the enclosure's optimum), C04_alg_check_sound (verdict 0/32 of the second check: the implementation's derivation is well formed and optimal), C04_old_pointer_loop_refuted (the pre-repair pointer discipline loops on X -> X a | b for every fuel), C04_unconverged_weight_refuted (the convergence premise is needed). fggs.viterbi's derivation is compared with viterbi_model's on every generated case (equal, or equal weight up to tie-breaking).",
+    text="Coq (Props/C04.v, all closed, no premises about the semiring): derivation trees, their weight and well-formedness are defined once (shared with C01). C04_wf_reflect: the executable well-formedness test decides the Prop (rule of the nonterminal rewritten, every node of the rule instance has a value in its domain, externals agree with the parent, exactly one child per edge) for every grammar. C04_tree_weight_below_kleene: in the Viterbi semiring every well-formed derivation's weight is below the Kleene iterate at its depth. C04_optimal: when the exact max-plus Kleene iteration reaches its fixed point, that value bounds the weight of every well-formed derivation of every nonterminal and assignment (any depth), equals the maximum over the derivations of bounded depth and is attained by one of them unless it is -inf. C04_check_sound: verdict 0 of the check means the returned derivation is well formed, has finite weight, no derivation of the start symbol at that assignment weighs more, sum_product(Viterbi) contains that value and derive()'s re-scored weight equals it. C04_weight_is_factor_product: the weight of a derivation is the product of the terminal factor entries of its rule instances (= the score of derive()'s factor graph). The (max,+) law records are proved (C04_trop_ring, C04_trop_ordered). Every derivation returned by fggs.viterbi on generated FGGs is converted to a tree and judged by the extracted check. The algorithm itself is modelled in Model/ViterbiAlg.v (arg-max per rule, F_viterbi's value / lhs_pointer / rhs_pointer cells with first-rule filling and strict-improvement overwrite, the per-component loop with the pointer merge of repair b171ddf, reconstruct with fuel): C04_ptr_inv (after any number of passes every finite cell's pointers name a rule and an in-range assignment whose edge product, with the values of the pass the pointer was recorded in, is the cell's value), C04_reconstruct_terminates (if every loop stopped with two equal iterates, reconstruct with fuel #components*(kmax+1) returns, for every finite cell, a well-formed derivation weighing the cell's value), C04_tables_lfp / C04_alg_optimal (the value tables are the least fixed point of the max-plus equations, so viterbi_model's derivation is optimal and equals the enclosure's optimum), C04_alg_check_sound (verdict 0/32 of the second check: the implementation's derivation is well formed and optimal), C04_old_pointer_loop_refuted (the pre-repair pointer discipline loops on X -> X a | b for every fuel), C04_unconverged_weight_refuted (the convergence premise is needed). fggs.viterbi's derivation is compared with viterbi_model's on every generated case (equal, or equal weight up to tie-breaking). Histories of calls on ONE FGG object are modelled in Model/ViterbiHist.v as a state machine (state = rules + terminal weights; a step = in-place weight updates and added rules, then one observed call): C04_hist_state (call j is judged against the initial rules plus all rules added, and the initial weights with all updates applied in order, up to step j; earlier observations play no role), C04_hist_update_same / _other (an update writes exactly one entry), C04_hist_check_sound / C04_hist_check_optimal (verdict 0: every call of the history that falls under the property returned a well-formed derivation that is optimal for the rules and weights the object had AT THAT CALL), C04_hist_check_rejects (verdict 100*j+c: call j is the first rejected one and c is vit_check's verdict on it), C04_example_hist (a derivation computed from an earlier state is rejected as call 2 with verdict 6). The harness generates such histories (in-place update of the tensor handed to FiniteFactor, of weights.physical, a new tensor assigned, rules added; updates prefer entries the previous answer relied on), takes deep snapshots of the object before/after every call (the call must not change it), and builds every FGG in one of four ways (shared label objects, a new equal EdgeLabel/NodeLabel object per use, the convenience API, FGG.copy()); chains of ONE nonterminal (a singleton self-recursive component whose optimum needs the recursive rule several times) are generated.",
     note="Trusted: Coq kernel, extraction cross-checked by vm_compute, harness conversion of FGGDerivation objects to trees and the harness's re-scoring of derive()'s output; log_viterbi_einsum_forward is modelled by its contract (maximum + a maximiser), derive() itself is not modelled.",
     technique="Coq-verified oracle (well-formedness + optimality against the exact trop least fixed point, proved to be the maximum over all derivation trees) on implementation outputs; code-shaped Gallina model of viterbi.py with invariant proofs, compared with the implementation's derivations up to ties",
     design_ref="DESIGN.md section 6, C04")
